@@ -49,7 +49,10 @@ def closure_table(prog):
     entries = [
         ('c_style_comments_parser::{closure#0}', dict(comment_node_kind=b'comment'), [
             (b'comment', b'/*', C_ALPHA, ['c', 'cpp', 'go', 'java', 'js', 'kt', 'swift', 'ts', 'tsx', 'h', 'cc']),
-            (b'comment', b'//', LINE_ALPHA, ['c', 'js', 'go'])]),
+            (b'comment', b'//', LINE_ALPHA, ['c', 'js', 'go']),
+            # comment lines that begin with multi-byte whitespace (byte index != char index)
+            (b'comment', '/*\n\u00a0'.encode('utf-8'), C_ALPHA, ['c', 'js', 'go']),
+            (b'comment', '/* a\n\u3000\u00a0'.encode('utf-8'), C_ALPHA, ['c', 'js'])]),
         ('c_style_line_and_block_comments_parser::{closure#0}',
          dict(line_comment_node_kind=b'line_comment', block_comment_node_kind=b'block_comment'), [
             (b'block_comment', b'/*', C_ALPHA, ['java', 'kt']),
@@ -59,7 +62,8 @@ def closure_table(prog):
         ('xml_style_comments_parser::{closure#0}', dict(comment_node_kind=b'comment'), [
             (b'comment', b'<!--', XML_ALPHA, ['html', 'xml'])]),
         ('rust::comments_parser::{closure#0}', {}, [
-            (b'block_comment', b'/*', C_ALPHA, ['rs']), (b'line_comment', b'//', LINE_ALPHA, ['rs'])]),
+            (b'block_comment', b'/*', C_ALPHA, ['rs']), (b'line_comment', b'//', LINE_ALPHA, ['rs']),
+            (b'block_comment', '/*\n\u00a0'.encode('utf-8'), C_ALPHA, ['rs'])]),
         ('php::comments_parser::{closure#0}', {}, [
             (b'comment', b'/*', C_ALPHA, ['php']), (b'comment', b'//', LINE_ALPHA, ['php']), (b'comment', b'#', LINE_ALPHA, ['php'])]),
         ('sql::comments_parser::{closure#0}', {}, [
@@ -70,6 +74,9 @@ def closure_table(prog):
         ('bash::comments_parser::{closure#0}', {}, [(b'comment', b'#', LINE_ALPHA, ['sh', 'bash'])]),
         ('markdown_comments_parser::{closure#0}', {}, [
             (b'link_reference_definition', b'[', MD_ALPHA, ['md']),
+            # the title part: every text after the marker (closing before opening delimiters included)
+            (b'link_reference_definition', b'[//]:', MD_ALPHA, ['md']),
+            (b'link_reference_definition', b'[//]: <', [ord(c) for c in '()"\'>a '], ['md']),
             # a multi-byte character before the comment marker (byte index != char index)
             (b'link_reference_definition', '[\u00e9]: <[//]:'.encode('utf-8'), MD_ALPHA, ['md'])]),
     ]
@@ -224,7 +231,7 @@ def normaliser_tasks(prog, lmax, pre_values=(0, 3)):
 def try_panic_on_binary(binary, text, exts):
     """Candidate files for each extension routed to the normaliser; True if one crashes/hangs."""
     t = text.encode('latin1')
-    cands = [t, t + b'\n', b'x = 1\n' + t + b'\n', t + b'\nrest\n', t + b' (y)\n', t + b'> (y)\n']
+    cands = [t, t + b'\n', b'x = 1\n' + t + b'\n', t + b'\nrest\n', t + b' (y)\n', t + b'> (y)\n', t + b'>\n', t + b'>\n\nrest\n']
     for ext in exts:
         for c in cands:
             r = run_scan(binary, {'f.' + ext: c}, ['**'], extra_args=['list'])
